@@ -553,6 +553,38 @@ def tdiv_q_2exp (w u cnt : Nat) (s : St) : R St := do
       let s ← mpn_copy true wp 0 up limb_cnt wsize s          -- :56 MPN_COPY_INCR
       pure (s.setSize w (if usize ≥ 0 then (wsize : Int) else -(wsize : Int)))     -- :59
 
+/-- tdiv_r_2exp.c:70-72: `if (res != in) MPN_COPY (res->_mp_d, in->_mp_d, limb_cnt); res->_mp_size = in->_mp_size >= 0 ? res_size : -res_size` -/
+def tdivR2expTail (res inp res_size limb_cnt : Nat) (s : St) : R St := do
+  let s ← (if res ≠ inp then do
+      let l ← s.loadAt (s.ptr inp) 0 limb_cnt
+      s.storeAt (s.ptr res) 0 l
+    else pure s)
+  pure (s.setSize res (if s.size inp ≥ 0 then (res_size : Int) else -(res_size : Int)))
+
+/-- mpz_tdiv_r_2exp (res, in, cnt): mpz/tdiv_r_2exp.c:29-78.  `in_ptr = in->_mp_d` is fetched at the top (:32) and used
+    only before the reallocation of res; the final copy re-reads `in->_mp_d` (:71).  With `res = in` nothing is copied:
+    the masked high limb is stored in place (:46). -/
+def tdiv_r_2exp (res inp cnt : Nat) (s : St) : R St := do
+  let in_size := (s.size inp).natAbs                          -- tdiv_r_2exp.c:29
+  let limb_cnt := cnt / 64                                    -- :31
+  let in_ptr := s.ptr inp                                     -- :32
+  let (res_size, limb_cnt, s) ← (if in_size > limb_cnt then do                 -- :34
+      let xl ← limbAt s in_ptr limb_cnt                       -- :39
+      let x := xl % 2 ^ (cnt % 64)
+      if x ≠ 0 then do                                        -- :40
+        let s := s.mpzRealloc res (limb_cnt + 1)              -- :42-44
+        let s ← s.storeAt (s.ptr res) limb_cnt [x]            -- :46
+        pure (limb_cnt + 1, limb_cnt, s)
+      else do
+        let lo ← s.loadAt in_ptr 0 limb_cnt                   -- :51 MPN_NORMALIZE (in_ptr, res_size)
+        let res_size := sizeNat (val lo)
+        let s := s.mpzRealloc res res_size                    -- :53-54
+        pure (res_size, res_size, s)                          -- :56
+    else do
+      let s := s.mpzRealloc res in_size                       -- :63-65
+      pure (in_size, in_size, s))                             -- :67
+  tdivR2expTail res inp res_size limb_cnt s                   -- :70-72
+
 /-- cfdiv_q_2exp (w, u, cnt, dir) of mpz/cfdiv_q_2exp.c:33-91 (`dir = 1`: mpz_cdiv_q_2exp, `dir = -1`: mpz_fdiv_q_2exp).
     With `w = u` the shift overwrites the low limbs of u: the C looks at the limbs it is going to skip BEFORE the
     shift (:57-62). -/
